@@ -697,13 +697,19 @@ impl MqttState {
     /// Packet ids are incremented till maximum set inflight messages and reset to 1 after that.
     ///
     fn next_pkid(&mut self) -> u16 {
+        // A CONNACK can lower `max_outgoing_inflight` below the id handed out last.
+        // Start over instead of counting on towards u16::MAX
+        if self.last_pkid >= self.max_outgoing_inflight {
+            self.last_pkid = 0;
+        }
+
         let next_pkid = self.last_pkid + 1;
 
         // When next packet id is at the edge of inflight queue,
         // set await flag. This instructs eventloop to stop
         // processing requests until all the inflight publishes
         // are acked
-        if next_pkid == self.max_outgoing_inflight {
+        if next_pkid >= self.max_outgoing_inflight {
             self.last_pkid = 0;
             return next_pkid;
         }
